@@ -306,6 +306,10 @@ enum Stmt {
     Call(Bin),
     /// let mut arr = [a, b, c]; arr[(x % 4u8) as usize] = y;  -- index 3 is out of bounds
     ArrAssign(Atom, Atom),
+    /// let mut m = [[a, b], [c, 7u8]]; m[(x % 3u8) as usize][((y op z) % 3u8) as usize] = w op2 v;  -- outer / inner index 2 is out of
+    /// bounds, the inner index expression and the value can fail; evaluation order: outer index, its bounds check, inner index, its
+    /// bounds check, value
+    NestedAssign(Atom, Bin, Bin),
 }
 
 fn atom_src(a: &Atom) -> String {
@@ -357,6 +361,11 @@ fn stmt_src(s: &Stmt, k: usize) -> Vec<String> {
             format!("    let mut arr{k} = [a, b, c];"),
             format!("    arr{k}[({} % 4u8) as usize] = {};", atom_src(x), atom_src(y)),
             format!("    let v{k} = arr{k}[0] ^ arr{k}[1] ^ arr{k}[2];"),
+        ],
+        Stmt::NestedAssign(x, j, v) => vec![
+            format!("    let mut m{k} = [[a, b], [c, 7u8]];"),
+            format!("    m{k}[({} % 3u8) as usize][(({}) % 3u8) as usize] = {};", atom_src(x), bin_src(j), bin_src(v)),
+            format!("    let v{k} = m{k}[0][0] ^ m{k}[0][1] ^ m{k}[1][0] ^ m{k}[1][1];"),
         ],
         Stmt::Arith(b) => vec![format!("    let v{k} = {};", bin_src(b))],
         Stmt::Index(x, len) => {
@@ -462,6 +471,16 @@ fn stmt_val(s: &Stmt, env: &[u8]) -> Result<u8, (u8, usize)> {
             arr[i as usize] = atom_val(y, env);
             Ok(arr[0] ^ arr[1] ^ arr[2])
         }
+        Stmt::NestedAssign(x, j, v) => {
+            let i = atom_val(x, env) % 3;
+            if i >= 2 { return Err((3, 1)); }
+            let jv = bin_val(j, env).map_err(|r| (r, 1))? % 3;
+            if jv >= 2 { return Err((3, 1)); }
+            let val = bin_val(v, env).map_err(|r| (r, 1))?;
+            let mut m = [[env[0], env[1]], [env[2], 7]];
+            m[i as usize][jv as usize] = val;
+            Ok(m[0][0] ^ m[0][1] ^ m[1][0] ^ m[1][1])
+        }
         Stmt::Arith(b) => bin_val(b, env).map_err(|r| (r, 0)),
         Stmt::Index(x, len) => {
             let i = atom_val(x, env) % (len + 2);
@@ -506,15 +525,19 @@ fn rand_keys(rng: &mut Rng, n: usize) -> Vec<u8> {
     ks
 }
 
+fn rand_join(rng: &mut Rng, nvars: usize) -> Stmt {
+    let ops = ["+", "-", "*", "/", "%", "<<", ">>", "+", "/"];
+    let (n, m) = (1 + rng.below(3), 1 + rng.below(3));
+    let xs = rand_keys(rng, n).into_iter().map(|k| (k, rand_atom(rng, nvars))).collect();
+    let ys = rand_keys(rng, m).into_iter().map(|k| (k, rand_atom(rng, nvars))).collect();
+    Stmt::Join(xs, ys, ops[rng.below(9)])
+}
+
 fn rand_stmt(rng: &mut Rng, nvars: usize) -> Stmt {
     let ops = ["+", "-", "*", "/", "%", "<<", ">>", "+", "/"];
-    match rng.below(13) {
-        9 => {
-            let (n, m) = (1 + rng.below(3), 1 + rng.below(3));
-            let xs = rand_keys(rng, n).into_iter().map(|k| (k, rand_atom(rng, nvars))).collect();
-            let ys = rand_keys(rng, m).into_iter().map(|k| (k, rand_atom(rng, nvars))).collect();
-            Stmt::Join(xs, ys, ops[rng.below(9)])
-        }
+    match rng.below(14) {
+        13 => Stmt::NestedAssign(rand_atom(rng, nvars), rand_bin(rng, nvars), rand_bin(rng, nvars)),
+        9 => rand_join(rng, nvars),
         10 => Stmt::For((0..1 + rng.below(3)).map(|_| rand_atom(rng, nvars)).collect(), ops[rng.below(9)], rand_atom(rng, nvars)),
         11 => Stmt::Call(rand_bin(rng, nvars)),
         12 => Stmt::ArrAssign(rand_atom(rng, nvars), rand_atom(rng, nvars)),
@@ -628,12 +651,15 @@ pub fn check_src(stmts: &[Stmt], inputs: &[(u8, u8, u8)]) -> Result<(), String> 
 }
 
 pub fn search_src(args: &[String], seed: u64, programs: u64) -> Option<String> {
-    let _ = args;
+    // --join-only: every program starts with a for-join loop whose body can fail (used by the C13 check: the loop's panics
+    // are applied only for the joined pairs)
+    let join_only = args.iter().any(|a| a == "--join-only");
     let mut rng = Rng(seed ^ 0xC025);
     let vals = [0u8, 1, 2, 3, 4, 5, 7, 8, 9, 44, 100, 128, 200, 254, 255];
     for _ in 0..programs {
         let n = 1 + rng.below(4);
-        let stmts: Vec<Stmt> = (0..n).map(|k| rand_stmt(&mut rng, 3 + k)).collect();
+        let mut stmts: Vec<Stmt> = (0..n).map(|k| rand_stmt(&mut rng, 3 + k)).collect();
+        if join_only { stmts[0] = rand_join(&mut rng, 3); }
         let mut inputs = vec![];
         for _ in 0..30 {
             let mut pick = |rng: &mut Rng| if rng.below(4) == 0 { rng.next() as u8 } else { vals[rng.below(vals.len())] };
